@@ -881,4 +881,158 @@ Proof.
         apply (Step _ (ATC o (r0 :: s0))); [assumption | assumption | reflexivity].
 Qed.
 
+
+(* ---- the pre-scan (countCaptures) finds nothing to do on Escape output ---- *)
+
+Lemma prepass_escape s : Forall valid_rune s -> forall tail,
+  (forall f, (length tail < f)%nat -> PRE f o tail = Ok true) ->
+  forall f, (length (esc s ++ tail) < f)%nat -> PRE f o (esc s ++ tail) = Ok true.
+Proof.
+  induction s as [|r s IH]; intros Hv tail Htail f Hf.
+  - cbn [escape flat_map app] in *. apply Htail. assumption.
+  - inversion Hv as [|r' s' Hr Hs]; subst. rewrite esc_cons in *.
+    destruct f as [|f']; [lia|].
+    destruct (escape_rune_inv2 is_print is_word_char meta_not_word r Hr) as [[Hraw Hrr] | [body [Hesc [Hok Hscan]]]].
+    + rewrite Hraw in *. cbn [app length] in *. cbn [prepass prepass_body].
+      destruct (raw_not_chars r Hrr) as [H35 [_ [H92 Hpar]]].
+      replace (r =? 92) with false by lia. replace (r =? 35) with false by lia. cbn [andb].
+      rewrite Hpar. apply IH; [assumption | assumption | lia].
+    + rewrite Hesc in *. rewrite <- app_assoc in *. cbn [app length] in *.
+      cbn [prepass prepass_body]. rewrite Z.eqb_refl.
+      rewrite (scan_backslash_body is_word_char to_lower o true body (esc s ++ tail) r Hok Hscan).
+      destruct body as [|c t]; [discriminate|]. cbn [app].
+      apply IH; [assumption | assumption |]. rewrite app_length in Hf. lia.
+Qed.
+
+Lemma prepass_nil f : (0 < f)%nat -> PRE f o [] = Ok true.
+Proof. destruct f; [lia | reflexivity]. Qed.
+
+Lemma prepass_end_anchor f : (2 < f)%nat -> PRE f o [92; 122] = Ok true.
+Proof. destruct f as [|[|f]]; [lia | lia | reflexivity]. Qed.
+
+(* ---- the concatenation reduction on literal leaves ---- *)
+
+Lemma reduce_concat_lit ls : Forall (lit_leaf (clear_I o)) ls ->
+  reduce_concat o ls = lit_body (clear_I o) (spelling ls).
+Proof.
+  intros Hl. destruct ls as [|x [|y l]].
+  - reflexivity.
+  - inversion Hl as [|x' l' Hx _]; subst. cbn [reduce_concat spelling flat_map]. rewrite app_nil_r.
+    unfold lit_body. destruct x; cbn in Hx; try contradiction.
+    + subst. reflexivity.
+    + destruct Hx as [-> Hx]. cbn [leaf_str str_of]. rewrite lit_nodes_long by assumption. reflexivity.
+  - inversion Hl as [|x' l' Hx Hl']; subst. cbn [reduce_concat].
+    rewrite (coalesce_plain (clear_I o) (y :: l) x (or_introl Hx)).
+    2:{ eapply Forall_impl; [|exact Hl']. intros a Ha. left. exact Ha. }
+    pose proof (merge_lit_run (clear_I o) (x :: y :: l) Hl ltac:(discriminate) [] I) as Hm.
+    rewrite app_nil_r in Hm. rewrite Hm. cbn [merge_strs flush]. rewrite app_nil_r.
+    assert (H2 : (2 <= length (spelling (x :: y :: l)))%nat).
+    { cbn [spelling flat_map]. apply two_or_more; [eapply lit_leaf_str_nonempty; eassumption|].
+      apply (spelling_nonempty (clear_I o) (y :: l)); [assumption | discriminate]. }
+    unfold lit_body. rewrite lit_nodes_long by assumption. reflexivity.
+Qed.
+
+(* \A ... \z around literal leaves *)
+Definition anchored_body (o' : Z) (s : list Z) : pbody :=
+  BConcat o' (PnType NT_Beginning o' :: lit_nodes o' s ++ [PnType NT_End o']).
+
+Lemma reduce_concat_cons x l : l <> [] ->
+  reduce_concat o (x :: l) =
+  match merge_strs None (coalesce x l) with
+  | [] => BEmpty (clear_I o)
+  | [y] => BSingle y
+  | l2 => BConcat (clear_I o) l2
+  end.
+Proof. destruct l; [congruence | reflexivity]. Qed.
+
+Lemma reduce_concat_anchored ls : Forall (lit_leaf (clear_I o)) ls ->
+  reduce_concat o (PnType NT_Beginning (clear_I o) :: ls ++ [PnType NT_End (clear_I o)]) =
+  anchored_body (clear_I o) (spelling ls).
+Proof.
+  intros Hl.
+  assert (Hpl : Forall (plain (clear_I o)) (ls ++ [PnType NT_End (clear_I o)])).
+  { apply Forall_app. split.
+    - eapply Forall_impl; [|exact Hl]. intros a Ha. left. exact Ha.
+    - constructor; [right; eauto | constructor]. }
+  rewrite reduce_concat_cons by (destruct ls; discriminate).
+  rewrite (coalesce_plain (clear_I o) _ _ (or_intror (ex_intro _ _ (ex_intro _ _ eq_refl))) Hpl).
+  cbn [merge_strs str_of flush app].
+  assert (Hm : merge_strs None (ls ++ [PnType NT_End (clear_I o)]) =
+               lit_nodes (clear_I o) (spelling ls) ++ [PnType NT_End (clear_I o)]).
+  { destruct ls as [|x l]; [reflexivity|].
+    rewrite (merge_lit_run (clear_I o) (x :: l) Hl ltac:(discriminate) [PnType NT_End (clear_I o)] eq_refl). reflexivity. }
+  rewrite Hm. unfold anchored_body.
+  destruct (lit_nodes (clear_I o) (spelling ls)) as [|a [|b l1]]; reflexivity.
+Qed.
+
+
+(* ---- the whole parser on Escape output ---- *)
+Hypothesis HR : useRTL o = false.
+
+Local Notation PARSE := (parse_lit is_word_char to_lower is_cased participates ci_single ci_set_id).
+
+Lemma esc_nonneg s : Forall valid_rune s -> forallb (fun c => 0 <=? c) (esc s) = true.
+Proof.
+  induction s as [|r s IH]; intros Hv; [reflexivity|].
+  inversion Hv as [|r' s' Hr Hs]; subst. rewrite esc_cons, forallb_app, (IH Hs), andb_true_r.
+  destruct (escape_rune_inv2 is_print is_word_char meta_not_word r Hr) as [[Hraw Hrr] | [body [Hesc [Hok Hscan]]]].
+  - rewrite Hraw. cbn [forallb]. unfold valid_rune in Hr. rewrite andb_true_r. lia.
+  - rewrite Hesc. cbn [forallb]. destruct body as [|c t]; [discriminate|].
+    unfold body_ok in Hok. apply andb_prop in Hok. destruct Hok as [_ Hok]. rewrite Hok. reflexivity.
+Qed.
+
+Lemma tail_spec_nil : tail_spec [] [].
+Proof.
+  split; [left; reflexivity|]. intros f acc Hf. destruct f; [lia|]. cbn. rewrite app_nil_r. reflexivity.
+Qed.
+
+Lemma sb_beginning so rest : SB o so (65 :: rest) = Ok (BGot (EsType NT_Beginning) rest).
+Proof. reflexivity. Qed.
+Lemma sb_end so rest : SB o so (122 :: rest) = Ok (BGot (EsType NT_End) rest).
+Proof. reflexivity. Qed.
+
+Lemma tail_spec_end : tail_spec [92; 122] [PnType NT_End (clear_I o)].
+Proof.
+  split; [right; eexists; reflexivity|]. intros f acc Hf. cbn [length] in Hf.
+  destruct f as [|[|f]]; [lia | lia |]. cbn [scan_loop]. rewrite scan_body_backslash, sb_end.
+  cbn [bind node_of_esc]. cbv zeta.
+  replace (scan_blank o []) with (@nil Z) by (unfold scan_blank; case (useX o); reflexivity).
+  reflexivity.
+Qed.
+
+Theorem escape_parses_to_literal s : Forall valid_rune s ->
+  PARSE o (esc s) = Ok (PTree (PRoot o (lit_body (clear_I o) s))).
+Proof.
+  intros Hv. unfold parse_lit. rewrite pl_bounds_ok_true, (esc_nonneg s Hv), HR. cbn [negb].
+  pose proof (prepass_escape s Hv [] (fun f Hf => prepass_nil f ltac:(cbn [length] in Hf; lia))
+                (S (length (esc s)))) as Hp.
+  rewrite app_nil_r in Hp. rewrite Hp by lia. cbn [bind negb].
+  destruct (scan_escape (length s) s (le_n _) Hv [] [] tail_spec_nil (S (length (esc s))) [])
+    as [ls [Hrun [Hl Hs]]]; [rewrite app_nil_r; lia|].
+  rewrite app_nil_r in Hrun. rewrite Hrun. cbn [bind app]. rewrite app_nil_r.
+  rewrite (reduce_concat_lit ls Hl), Hs. reflexivity.
+Qed.
+
+Theorem anchored_escape_parses s : Forall valid_rune s ->
+  PARSE o ([92; 65] ++ esc s ++ [92; 122]) = Ok (PTree (PRoot o (anchored_body (clear_I o) s))).
+Proof.
+  intros Hv. unfold parse_lit. rewrite pl_bounds_ok_true. cbn [app negb].
+  assert (Hnn : forallb (fun c => 0 <=? c) (92 :: 65 :: esc s ++ [92; 122]) = true).
+  { cbn [forallb]. rewrite forallb_app, (esc_nonneg s Hv). reflexivity. }
+  rewrite Hnn, HR. cbn [negb].
+  (* pre-scan *)
+  cbn [prepass]. unfold prepass_body at 1. change (92 =? 92) with true. rewrite sb_beginning. cbv iota.
+  rewrite (prepass_escape s Hv [92; 122] prepass_end_anchor) by (cbn [length]; lia). cbn [bind negb].
+  (* main scan *)
+  cbn [scan_loop]. rewrite scan_body_backslash, sb_beginning. cbn [bind node_of_esc app]. cbv zeta.
+  assert (Hg : good_head (esc s ++ [92; 122])).
+  { apply good_head_esc; [assumption | right; eexists; reflexivity]. }
+  rewrite (good_head_blank _ Hg), (good_head_not_quantifier _ Hg).
+  destruct (scan_escape (length s) s (le_n _) Hv [92; 122] _ tail_spec_end
+              (length (92 :: 65 :: esc s ++ [92; 122])) [PnType NT_Beginning (clear_I o)] ltac:(cbn [length]; lia))
+    as [ls [Hrun [Hl Hs]]].
+  rewrite Hrun. cbn [bind app].
+  rewrite (reduce_concat_anchored ls Hl), Hs. reflexivity.
+Qed.
+
 End Main.
